@@ -64,9 +64,12 @@ def classify(conds):
 
 
 def run(ctx):
+    from ..astutil import fold_module_constants
+
     repo = ctx.repo
+    mtree = repo.module(CL).tree
     for st in STATES:
-        fn = repo.func(CL, f"{st}.process")
+        fn = fold_module_constants(mtree, repo.func(CL, f"{st}.process"))
         where = f"{CL}:{st}.process"
         body = [s for s in fn.body if not (isinstance(s, ast.Expr) and isinstance(s.value, ast.Constant))]
         ps = paths(body)
@@ -90,8 +93,22 @@ def run(ctx):
             ctx.check("returns-a-state", where, ret is not None and (norm(ret.value) in ("self", "self.exit_state", "None") or isinstance(ret.value, (ast.Call, ast.Name))), f"[{desc}] returns {norm(ret.value) if ret is not None else 'nothing'}", construct=desc)
             if ret is not None and norm(ret.value) == "None":
                 ctx.check("token-ends-on-whitespace", where, "ws" in syn, f"[{desc}] the token ends only on whitespace", construct=desc, message=f"the token is ended on a non-whitespace path [{desc}]")
+        # the set of quote characters has one source: the splitter's configured allowed_quote_chars
+        for n in ast.walk(fn):
+            if isinstance(n, ast.Compare) and len(n.ops) == 1 and isinstance(n.ops[0], (ast.In, ast.NotIn)) and norm(n.left) == "next_char":
+                src = norm(n.comparators[0])
+                ctx.check("quote-table-single-source", where, src == "context.allowed_quote_chars", f"membership of next_char is tested against context.allowed_quote_chars ({src})", construct=norm(n), message=f"{st}.process classifies quote characters with `{norm(n)}` instead of the splitter's configured allowed_quote_chars: with single quotes disabled an apostrophe is still treated as a quote in this state only, and backslashes before it are lost")
+    # a token is ended by whitespace exactly when something was accumulated; a closed empty quotation leaves a marker
+    fw = fold_module_constants(mtree, repo.func(CL, "_Whitespace.process"))
+    ends = [p for p in paths([s_ for s_ in fw.body if not (isinstance(s_, ast.Expr) and isinstance(s_.value, ast.Constant))]) if p[2] is not None and norm(p[2].value) == "None"]
+    ok = len(ends) == 1 and ("_whitespace_match(next_char)", True) in ends[0][0] and any(t in ("len(context.token) > 0", "context.token", "len(context.token) != 0", "len(context.token)") and pol for t, pol in ends[0][0])
+    ctx.check("token-ends-when-nonempty", f"{CL}:_Whitespace.process", ok, "between tokens, whitespace ends the token exactly when something was accumulated in context.token", construct=str(ends[0][0]) if ends else "", message=f"_Whitespace no longer ends a token on `len(context.token) > 0` ({ends[0][0] if ends else 'no such path'}): after a backslash run returns to this state the pending unquoted token is not ended and the next argument is glued to it")
+    fq = fold_module_constants(mtree, repo.func(CL, "_Quotes.process"))
+    close = [p for p in paths([s_ for s_ in fq.body if not (isinstance(s_, ast.Expr) and isinstance(s_.value, ast.Constant))]) if ("next_char == self.quote_char", True) in p[0]]
+    ok = len(close) == 1 and any(call_attr(c) == "append" and call_recv(c) == "context.token" and const_value(c.args[0]) == "" for s_ in close[0][1] for c in calls_in(s_)) and close[0][2] is not None and norm(close[0][2].value) == "self.exit_state"
+    ctx.check("token-ends-when-nonempty", f"{CL}:_Quotes.process", ok, "closing a quotation appends the empty marker (so that \"\" is a token) and returns to the exit state", message="a closing quote no longer leaves the empty-string marker in the token: an empty quoted argument is dropped / the end-of-token test no longer sees it")
     # _Backslash bookkeeping
-    fb = repo.func(CL, "_Backslash.process")
+    fb = fold_module_constants(mtree, repo.func(CL, "_Backslash.process"))
     wb = f"{CL}:_Backslash.process"
     body = [s for s in fb.body if not (isinstance(s, ast.Expr) and isinstance(s.value, ast.Constant))]
     for conds, stmts, ret in paths(body):
@@ -119,6 +136,9 @@ def run(ctx):
 
 
 MUTANTS = [
+    Mutant("backslash state uses a fixed quote set", CL, "            self.count += 1\n            return self\n        elif next_char in context.allowed_quote_chars:", "            self.count += 1\n            return self\n        elif next_char in \"\\\"'\":", expect="quote-table-single-source"),
+    Mutant("token ended only after a quotation", CL, "            if len(context.token) > 0:\n                return None", "            if context.quoted:\n                return None", expect="token-ends-when-nonempty"),
+    Mutant("neutral: backslash literal named", CL, "class _Whitespace:\n", "_BACKSLASH = \"\\\\\"\n\n\nclass _Whitespace:\n", neutral=True),
     Mutant("_Word drops an ordinary character", CL, "        elif next_char == \"\\\\\":\n            return _Backslash(self)\n        else:\n            context.token.append(next_char)\n            return self\n\n\nclass Splitter", "        elif next_char == \"\\\\\":\n            return _Backslash(self)\n        else:\n            return self\n\n\nclass Splitter", expect="char-conserved"),
     Mutant("an invented literal is appended", CL, "        elif next_char == self.quote_char:\n            context.token.append(\"\")", "        elif next_char == self.quote_char:\n            context.token.append(\" \")", expect="nothing-invented"),
     Mutant("backslash run emitted without pushback of the next char", CL, "                context.token.append(\"\\\\\" * self.count)\n                self.count = 0\n            # let exit_state handle next_char\n            context.seq.pushback(next_char)\n            return self.exit_state", "                context.token.append(\"\\\\\" * self.count)\n                self.count = 0\n            return self.exit_state", expect="char-conserved"),
